@@ -201,6 +201,7 @@ impl Subscriber for SubscriberService {
         log::debug!("{}: deleting subscription", &subscription_name);
         subscription.delete().await.map_err(|e| match e {
             DeleteError::Closed => conflict(),
+            DeleteError::DoesNotExist => subscription_not_found(&subscription_name),
         })?;
         log::debug!(
             "{}: deleting subscription {}",
